@@ -280,12 +280,11 @@ inline Isolated run_isolated(const std::function<std::string()>& fn, int cpu_sec
 	r.cpu_ms = ru.ru_utime.tv_sec * 1000 + ru.ru_utime.tv_usec / 1000 + ru.ru_stime.tv_sec * 1000 + ru.ru_stime.tv_usec / 1000;
 	if (r.kind == "signal" && (r.code == SIGXCPU || r.code == SIGKILL) && r.cpu_ms >= (cpu_seconds - 1) * 1000L) r.cpu_exhausted = true;
 	if (efd >= 0) {
+		// head (the report header and the top frames) + tail of the child's stderr
 		off_t sz = lseek(efd, 0, SEEK_END);
-		off_t start = sz > 6000 ? sz - 6000 : 0;
-		lseek(efd, start, SEEK_SET);
-		std::string e(static_cast<size_t>(sz - start), '\0');
-		ssize_t n = read(efd, e.data(), e.size());
-		if (n > 0) { e.resize(static_cast<size_t>(n)); r.err = e; }
+		auto grab = [&](off_t from, off_t len) { std::string e(static_cast<size_t>(len), '\0'); lseek(efd, from, SEEK_SET); ssize_t n = read(efd, e.data(), e.size()); e.resize(n > 0 ? static_cast<size_t>(n) : 0); return e; };
+		if (sz <= 5000) r.err = grab(0, sz);
+		else r.err = grab(0, 3500) + "\n[...]\n" + grab(sz - 1500, 1500);
 		close(efd);
 	}
 	return r;
